@@ -269,6 +269,17 @@ def get_fn_ast(fn: Callable) -> ast.FunctionDef:
     return fn_def
 
 
+def _positional_params(fn_def: ast.FunctionDef) -> list[str]:
+    """Names of the parameters of a function that takes positional parameters only."""
+    args = fn_def.args
+    if args.vararg or args.kwonlyargs or args.kwarg:
+        # they are never bound to a model argument and would be looked up
+        # among the constants of the module
+        msg = "Only positional parameters are supported"
+        raise NotImplementedError(msg)
+    return [str(arg.arg) for arg in [*args.posonlyargs, *args.args]]
+
+
 def fn_to_sympy(
     fn: Callable,
     origin: str,
@@ -298,7 +309,7 @@ def fn_to_sympy(
     """
     try:
         fn_def = get_fn_ast(fn)
-        fn_args = [str(arg.arg) for arg in fn_def.args.args]
+        fn_args = _positional_params(fn_def)
 
         sympy_expr = _handle_fn_body(
             fn_def.body,
